@@ -184,7 +184,7 @@ class C16(BaseCheck):
                 m = r.choice([1, 2, 3])
                 ops.append({'op': 'update', 'pairs': [[r.choice(keys), ({'cm': 1000 * (jj + 1) + j} if cls == 'gcols' else 1000 * (jj + 1) + j)]
                                                       for jj in range(m)],
-                            'as': r.choice(['pairs', 'dict'])})
+                            'as': r.choice(['pairs', 'dict', 'iter'])})
             elif op == 'clear':
                 ops.append({'op': 'clear'})
             elif op == 'sort':
@@ -204,7 +204,7 @@ class C16(BaseCheck):
             elif op == 'extend':
                 m = r.choice([1, 2, 3]) if not bigext else r.choice([3, 31, 32, 33, 48])
                 o = {'op': 'extend', 'pairs': [[r.choice(keys), 1000 * (jj + 1) + j] for jj in range(m)],
-                     'as': r.choice(['pairs', 'dict', 'sd'])}
+                     'as': r.choice(['pairs', 'dict', 'sd', 'gen', 'zip', 'iter'])}
                 if r.random() < p_refuse:
                     o['replace'] = False
                 ops.append(o)
@@ -305,7 +305,7 @@ class C16(BaseCheck):
             return m.setdefault(o['k'], mkval(o['v']))
         if op == 'update':
             pairs = [(k, mkval(v)) for k, v in o['pairs']]
-            m.update(dict(pairs) if o.get('as') == 'dict' else pairs)
+            m.update(dict(pairs) if o.get('as') == 'dict' else iter(pairs) if o.get('as') == 'iter' else pairs)
             return None
         if op == 'clear':
             m.clear()
@@ -332,7 +332,9 @@ class C16(BaseCheck):
             if 'replace' in o:
                 kw['replace'] = o['replace']
             how = o.get('as')
-            src = dict(pairs) if how == 'dict' else SortableDict(pairs) if how == 'sd' else pairs
+            src = dict(pairs) if how == 'dict' else SortableDict(pairs) if how == 'sd' else \
+                (p for p in pairs) if how == 'gen' else zip([p[0] for p in pairs], [p[1] for p in pairs]) if how == 'zip' else \
+                iter(pairs) if how == 'iter' else pairs       # one-shot iterables are legal arguments too
             m.extend(src, **kw)
             return None
         raise AssertionError(op)
